@@ -415,6 +415,13 @@ Section Init.
   Qed.
 End Init.
 
+Lemma eff_ed_slots dim ed n : (dim <> 3 -> n = 0) -> n * eff_ed dim ed = ed * n.
+Proof.
+  intros H. unfold eff_ed. destruct (Nat.eqb_spec dim 3) as [E|E]; simpl.
+  - destruct (Nat.ltb_spec 0 ed); [lia | assert (ed = 0) by lia; subst; lia].
+  - rewrite (H E). lia.
+Qed.
+
 (* ------------------------------------------------------------------ packaged hypotheses *)
 (* well-formed input: the facet block is gathered whenever it is allocated; tables have nt columns, entries in range *)
 Definition wf (dim fd nv ne nf nt : nat) (t t2e t2f : list (list nat)) : Prop :=
